@@ -333,9 +333,23 @@ func (x *c04World) judge(r c04Req, cid string, res c04Result, viewBefore string,
 			c.Fatalf("ADD for %s rejected as 'processing' although no request for that pod was in flight", name)
 		}
 		if m.cur != nil {
-			m.cur.uncertain = true
-			m.tainted = true
 			x.labels["failed-repeat-add"] = true
+			if !x.noGuard && vt.Known("C04-cancelled-repeat-add-releases-held") {
+				m.cur.uncertain = true
+				m.tainted = true
+				return
+			}
+			// a failed repeat of an acknowledged ADD takes nothing away: the record and the
+			// pool ownership are as before (the request "has no effect")
+			for i := 0; i < 2000; i++ {
+				if x.podView(r.Pod) == viewBefore {
+					break
+				}
+				time.Sleep(500 * time.Microsecond)
+			}
+			if v := x.podView(r.Pod); v != viewBefore {
+				c.Fatalf("failed repeat of the acknowledged ADD for %s (%v) changed the pod's allocation:\nbefore %s\nafter  %s", name, res.err, viewBefore, v)
+			}
 			return
 		}
 		// no acknowledged allocation: everything the request took must be handed back
